@@ -127,7 +127,10 @@ impl State {
                     param.get_parent_location(self.stack_id.bytesize()).unwrap();
                 let parent_id =
                     AbstractIdentifier::new(self.stack_id.get_tid().clone(), parent_location);
-                self.store_value(
+                // The store fails if the parent memory object does not exist
+                // (e.g. if the function signature does not mark the parent location as dereferenced).
+                // In this case the pointer to the nested parameter is simply not known in the start state.
+                let _ = self.store_value(
                     &Data::from_target(
                         parent_id,
                         Bitvector::from_i64(offset)
@@ -139,8 +142,7 @@ impl State {
                         Bitvector::zero(param_id.bytesize().into()).into(),
                     ),
                     global_memory,
-                )
-                .unwrap();
+                );
             }
             AbstractLocation::GlobalAddress { .. } => (),
             AbstractLocation::GlobalPointer(_, _) => {
